@@ -446,11 +446,13 @@ func genOp(r *rand.Rand, fam, key, uniq string) [][]byte {
 		case 6:
 			return c("TYPE", key)
 		case 7:
-			return c("EXPIRE", key, "1000000", []string{"NX", "XX", "GT", "LT"}[r.Intn(4)])
+			// every deadline of a history is at a distance of its own (>= 1000 s apart): GT/LT then compare the same
+			// way on the frozen clock of the model and on the real clock, whatever second boundary the history crosses
+			return c("EXPIRE", key, farTTL(uniq), []string{"NX", "XX", "GT", "LT"}[r.Intn(4)])
 		case 8:
 			return c("PERSIST", key)
 		case 9:
-			return c("SETEX", key, "1000000", uniq)
+			return c("SETEX", key, farTTL(uniq), uniq)
 		case 10:
 			return c("SET", key, uniq, "KEEPTTL")
 		case 11:
@@ -599,6 +601,15 @@ func genOp(r *rand.Rand, fam, key, uniq string) [][]byte {
 		return c("XRANGE", key, strconv.Itoa(r.Intn(4)), strconv.Itoa(2+r.Intn(5)))
 	}
 	return c("GET", key)
+}
+
+// farTTL derives a far-away time to live from the operation's unique tag ("c3-15" -> client 3, operation 15).
+func farTTL(uniq string) string {
+	var ci, i int
+	if _, err := fmt.Sscanf(uniq[1:], "%d-%d", &ci, &i); err != nil {
+		return "1000000"
+	}
+	return strconv.Itoa(1000000 + 1000*(ci*1000+i))
 }
 
 func isRMW(name string) bool {
